@@ -283,5 +283,8 @@ def run(rep: Report, tier: str) -> None:  # noqa: C901
                                        f"{op} over a {tname} component is computed as `{txt}`: the result of {op} can be fractional (median of 1 and 2 is 1.5; semantic analysis declares it a Number) "
                                        f"and the integer cast rounds it"))
     rep.floor("R03.10 cells", n10, 150)
+    # ---- R03.11 the builder: GROUP BY columns and HAVING conditions reach the SQL (real class, evaluated) ----
+    rep.rule("R03.11", "SQLBuilder: group_by() columns and having() conditions reach the SQL; HAVING does not depend on a non-empty GROUP BY")
+    transp.builder_contract(P, rep, "R03.11", parts="hg")
     rep.assumptions = ["DuckDB's aggregates of the same name implement the VTL aggregate operators (null measure values ignored)",
                        "SQLBuilder.having() conjoins conditions (read from sql_builder.py: _having_conditions.append)"]
